@@ -274,8 +274,19 @@ void do_op(W& w, const POp& p, int tid, RoundState& rs, std::vector<std::future<
                 excl_body(c, p, res);
                 return static_cast<int>(c.n);
             };
-            int n = (p.id % 4 == 2) ? w.modify(DualRet{&p, &res, &rs}) : (p.id % 2) ? w.modify(vrf::one_shot(fn)) : w.modify(fn);
-            (void)n;
+            if (p.id % 8 == 4) {
+                // a callable whose result is a reference to the object: whatever the wrapper returns, the library itself does
+                // not touch the object once the lock is gone (the result is not used here)
+                auto fnr = [&](Cell& c) -> Cell& {
+                    excl_body(c, p, res);
+                    return c;
+                };
+                auto&& r = w.modify(fnr);
+                (void)r;
+            } else {
+                int n = (p.id % 4 == 2) ? w.modify(DualRet{&p, &res, &rs}) : (p.id % 2) ? w.modify(vrf::one_shot(fn)) : w.modify(fn);
+                (void)n;
+            }
             res.success = true;
         }
         if (p.op == READ) {
@@ -290,8 +301,17 @@ void do_op(W& w, const POp& p, int tid, RoundState& rs, std::vector<std::future<
                 shared_body(c, p, res, rs);
                 return static_cast<int>(c.n);
             };
-            int n = (p.id % 4 == 2) ? w.read(DualRet{&p, &res, &rs, true}) : (p.id % 2) ? w.read(vrf::one_shot(fn)) : w.read(fn);
-            (void)n;
+            if (p.id % 8 == 4) {
+                auto fnr = [&](const Cell& c) -> const Cell& {
+                    shared_body(c, p, res, rs);
+                    return c;
+                };
+                auto&& r = w.read(fnr);
+                (void)r;
+            } else {
+                int n = (p.id % 4 == 2) ? w.read(DualRet{&p, &res, &rs, true}) : (p.id % 2) ? w.read(vrf::one_shot(fn)) : w.read(fn);
+                (void)n;
+            }
             res.success = true;
         }
     }
